@@ -20,6 +20,18 @@ const RDB_VERSION: u16 = 9;
 /// RDB magic string
 const RDB_MAGIC: &[u8] = b"REDIS";
 
+/// First element of the list encoding used for streams
+const STREAM_MARKER: &[u8] = b"__FERROUS_STREAM_MARKER__";
+
+/// Written in front of a real list whose first element would otherwise be
+/// mistaken for one of these two markers; dropped again when loading
+const LIST_ESCAPE: &[u8] = b"__FERROUS_LIST_ESCAPE__";
+
+/// True when a list must be written with the escape element in front
+fn list_needs_escape(first: Option<&Vec<u8>>) -> bool {
+    matches!(first, Some(e) if e.as_slice() == STREAM_MARKER || e.as_slice() == LIST_ESCAPE)
+}
+
 /// RDB opcodes
 #[repr(u8)]
 #[derive(Debug, Clone, Copy)]
@@ -282,7 +294,13 @@ impl RdbEngine {
                             buffer.extend_from_slice(bytes.as_ref());
                         }
                         Value::List(list) => {
-                            self.write_length(&mut buffer, list.len())?;
+                            if list_needs_escape(list.front()) {
+                                self.write_length(&mut buffer, list.len() + 1)?;
+                                self.write_length(&mut buffer, LIST_ESCAPE.len())?;
+                                buffer.extend_from_slice(LIST_ESCAPE);
+                            } else {
+                                self.write_length(&mut buffer, list.len())?;
+                            }
                             for item in list {
                                 self.write_length(&mut buffer, item.len())?;
                                 buffer.extend_from_slice(&item);
@@ -679,8 +697,14 @@ impl<W: Write> RdbWriter<W> {
                 self.write_byte(RdbOpcode::List as u8)?;
                 self.write_string(key)?;
                 
-                // Write list length
-                self.write_length(list.len())?;
+                // Write list length (plus the escape element when the first element
+                // could be mistaken for a marker)
+                if list_needs_escape(list.front()) {
+                    self.write_length(list.len() + 1)?;
+                    self.write_string(LIST_ESCAPE)?;
+                } else {
+                    self.write_length(list.len())?;
+                }
                 
                 // Write each list element
                 for item in list {
@@ -999,8 +1023,11 @@ impl<R: Read> RdbReader<R> {
                         }
                         return Ok(key);
                     } else {
-                        // Regular list - first element already read
-                        storage.rpush(db, key.clone(), vec![first_element])?;
+                        // Regular list - first element already read (an escape
+                        // element only protects the real first element)
+                        if first_element != LIST_ESCAPE {
+                            storage.rpush(db, key.clone(), vec![first_element])?;
+                        }
                         
                         // Read remaining list elements
                         for _ in 1..count {
